@@ -35,13 +35,11 @@ def box_kind(box):
     return type(box).__name__
 
 
-def pregroup_shape(diagram, words, target, vocab=None):
+def pregroup_shape(diagram, words, target):
     """
     Is `diagram` of the shape  words (tensored left to right) >> cups,
     with empty domain, codomain `target`, every cup joining adjacent
-    (t, t.r) wires ?  `words` is the list of word boxes that was given, or
-    None when only the vocabulary is known (brute_force): then the leading
-    boxes with empty domain that belong to `vocab` are taken as the words.
+    (t, t.r) wires ?  `words` is the list of word boxes that was given.
     Returns (ok, reason, n_words, n_cups).
     """
     boxes, offsets = diagram.boxes, diagram.offsets
@@ -49,21 +47,12 @@ def pregroup_shape(diagram, words, target, vocab=None):
         return False, "domain is not empty", 0, 0
     if rigid_key(diagram.cod) != rigid_key(target):
         return False, "codomain is not the target", 0, 0
-    if words is None:
-        vocab_keys = [word_key(w) for w in vocab]
-        n_words = 0
-        while n_words < len(boxes) and box_kind(boxes[n_words]) == "Word":
-            if word_key(boxes[n_words]) not in vocab_keys:
-                return False, "word {} is not in the vocabulary".format(
-                    n_words), n_words, 0
-            n_words += 1
-    else:
-        n_words = len(words)
-        if len(boxes) < n_words:
-            return False, "fewer boxes than words", len(boxes), 0
-        for i, word in enumerate(words):
-            if boxes[i] is not word and word_key(boxes[i]) != word_key(word):
-                return False, "box {} is not word {}".format(i, i), n_words, 0
+    n_words = len(words)
+    if len(boxes) < n_words:
+        return False, "fewer boxes than words", len(boxes), 0
+    for i, word in enumerate(words):
+        if boxes[i] is not word and word_key(boxes[i]) != word_key(word):
+            return False, "box {} is not word {}".format(i, i), n_words, 0
     scan = ()
     for i in range(n_words):
         if rigid_key(boxes[i].dom) != ():
